@@ -171,9 +171,9 @@ def run(rep, tier, seed):
         if o["kind"] == "ok":
             rep.nontriv([c["A"], c["B"], c["md"], c["off"]])
     if tier == "thorough":
-        for n, (na, nb) in enumerate([(1500, 1200), (800, 2000)]):
-            A = sorted(rng.sample(range(0, 4 * na), na))
-            B = sorted(rng.sample(range(0, 4 * na), nb))
+        for n, (na, nb) in enumerate([(3000, 2500), (1500, 4000), (5000, 4999)]):
+            A = sorted(rng.sample(range(0, 4 * max(na, nb)), na))
+            B = sorted(rng.sample(range(0, 4 * max(na, nb)), nb))
             c = {"A": A, "B": B, "md": 1, "off": rng.choice([-1, 0, 2])}
             clock = geom.CLOCKS[3]
             o = execute(c, clock, builts[n], geom.O24)
